@@ -187,7 +187,9 @@ def run(rep: common.Report, tier: str, seed: int, replay=None) -> int:
         # identity parameters (exact zeros / ones) are ordinary parameters: still a new, independent object
         for nm, B in (("translate(0, 0)", A.translate(0.0, 0.0)), ("translate()", A.translate()), ("translate(-0.0, 0)", A.translate(-0.0, 0)),
                       ("rotate(0)", A.rotate(0.0)), ("rotate(360)", A.rotate(360.0)), ("scale(1, 1)", A.scale(1.0, 1.0)),
-                      ("copy()", A.copy())):
+                      ("copy()", A.copy()),
+                      # set operations with zero further operands ("zero or more other polygons")
+                      ("union()", A.union()), ("intersection()", A.intersection()), ("difference()", A.difference())):
             if B is A or np.shares_memory(B.points, A.points):
                 rep.violation(f"non-in-place {nm} returns the original object / aliases its vertices", case)
             elif nm != "rotate(360)" and not np.array_equal(B.points, A.points):
